@@ -596,6 +596,51 @@ def stmt_guard_rule(ctx, rule, callers=None):
     return n
 
 
+GUARDNAMES_REF = os.path.join(os.path.dirname(os.path.dirname(os.path.abspath(__file__))), 'guardnames.json')
+
+
+def name_guards(f):
+    """[(guard name, text of the first guarded statement)] for `if <name>:` / `if not <name>:` blocks"""
+    out = []
+    for x in walk_no_nested(f):
+        if isinstance(x, ast.If) and x.body:
+            t = x.test
+            neg = isinstance(t, ast.UnaryOp) and isinstance(t.op, ast.Not)
+            if neg:
+                t = t.operand
+            if isinstance(t, ast.Name):
+                out.append([('not ' if neg else '') + t.id, norm(x.body[0])[:120]])
+    return out
+
+
+def guard_name_rule(ctx, rule, callers=None):
+    """a block guarded by the truth of one variable on the pinned tree is still guarded by that variable: a swap to a
+    similarly named one (`categories` / `cats`, `rg` / `rgs`) silently changes when the block runs"""
+    if not os.path.exists(GUARDNAMES_REF):
+        return 0
+    ref = json.load(open(GUARDNAMES_REF))
+    n = 0
+    for m, q, f in ctx.repo.functions():
+        name = '%s.%s' % (m.name, q)
+        if name not in ref:
+            continue
+        if callers is not None and not any(name == c or name.startswith(c + '.') or c == m.name for c in callers):
+            continue
+        cur = {}
+        for g, b in name_guards(f):
+            cur.setdefault(b, []).append(g)
+        refd = {}
+        for g, b in ref[name]:
+            refd.setdefault(b, []).append(g)
+        for b, gs in refd.items():
+            if len(gs) != 1 or b not in cur or len(cur[b]) != 1:
+                continue
+            n += 1
+            ctx.ob(rule, '%s:block-`%s`-guarded-by-%s' % (name, b[:40], gs[0]), cur[b][0] == gs[0],
+                   'on the reference tree this block runs under `if %s:`; now under `if %s:`' % (gs[0], cur[b][0]), m.loc(f))
+    return n
+
+
 STATE_FLAGS = {
     ('cencoding._assemble_objects', 'have_null'): 'state of the list being assembled (does the current list hold a null), '
                                                   'deliberately re-evaluated per element; not a summary of the loop',
@@ -704,3 +749,4 @@ def general_rules(ctx, tag, callers):
     guard_conjunct_rule(ctx, tag + '.CS11', callers=callers)
     loop_store_rule(ctx, tag + '.CS12', callers=callers)
     stmt_guard_rule(ctx, tag + '.CS13', callers=callers)
+    guard_name_rule(ctx, tag + '.CS14', callers=callers)
